@@ -159,6 +159,15 @@ impl Response {
 }
 
 impl Response {
+    /// `Transfer-Encoding: chunked` of a stream content must not be left on the content replacing it
+    #[inline]
+    fn forget_stream(&mut self) {
+        #[cfg(feature="sse")]
+        if matches!(self.content, Content::Stream(_)) {
+            self.headers.set().TransferEncoding(None);
+        }
+    }
+
     #[inline]
     pub fn with_headers(mut self, h: impl FnOnce(SetHeaders)->SetHeaders) -> Self {
         h(self.headers.set());
@@ -166,6 +175,7 @@ impl Response {
     }
 
     pub fn drop_content(&mut self) -> Content {
+        self.forget_stream();
         let old_content = self.content.take();
         self.headers.set()
             .ContentType(None)
@@ -183,6 +193,7 @@ impl Response {
         content:      impl Into<Cow<'static, [u8]>>,
     ) {
         let content: Cow<'static, [u8]> = content.into();
+        self.forget_stream();
         self.headers.set()
             .ContentType(content_type)
             .ContentLength(ohkami_lib::num::itoa(content.len()));
@@ -203,6 +214,7 @@ impl Response {
     #[inline]
     pub fn set_text<Text: Into<Cow<'static, str>>>(&mut self, text: Text) {
         let body: Cow<'static, str> = text.into();
+        self.forget_stream();
 
         self.headers.set()
             .ContentType("text/plain; charset=UTF-8")
@@ -220,6 +232,7 @@ impl Response {
 
     pub fn set_html<HTML: Into<Cow<'static, str>>>(&mut self, html: HTML) {
         let body: Cow<'static, str> = html.into();
+        self.forget_stream();
 
         self.headers.set()
             .ContentType("text/html; charset=UTF-8")
@@ -237,6 +250,7 @@ impl Response {
     #[inline(always)]
     pub fn set_json<JSON: serde::Serialize>(&mut self, json: JSON) {
         let body = ::serde_json::to_vec(&json).unwrap();
+        self.forget_stream();
         self.headers.set()
             .ContentType("application/json")
             .ContentLength(ohkami_lib::num::itoa(body.len()));
@@ -255,6 +269,7 @@ impl Response {
             Cow::Owned(string) => Cow::Owned(string.into_bytes()),
         };
 
+        self.forget_stream();
         self.headers.set()
             .ContentType("application/json")
             .ContentLength(ohkami_lib::num::itoa(body.len()));
